@@ -44,6 +44,9 @@ class HarnessError(Exception):
     pass
 
 
+CASE_WATCHDOG_S = 300
+
+
 def canon(obj):
     return json.dumps(obj, sort_keys=True, default=repr, separators=(",", ":"))
 
@@ -159,11 +162,30 @@ def run_given(ctx, fn, strategies, max_examples, seed_value):
     _cap_shrinking(ctx.tier)
 
     def wrapped(**kw):
+        # watchdog: a single generated case normally takes milliseconds; one that does not come back (an endless loop in the code
+        # under test) must not hang the whole check. It ends the run as a harness error (exit 2, inconclusive) - never as a
+        # violation, and only after a span no loaded machine needs for one case.
+        import signal
+
+        def on_alarm(*_a):
+            raise HarnessError(f"a generated case did not finish within {CASE_WATCHDOG_S} s (endless loop in the code under test?): {str(kw)[:300]}")
+
+        armed = False
+        try:
+            prev = signal.signal(signal.SIGALRM, on_alarm)
+            signal.alarm(CASE_WATCHDOG_S)
+            armed = True
+        except (ValueError, AttributeError):  # not in the main thread / no SIGALRM
+            prev = None
         try:
             fn(**kw)
         except Violation:
             ctx.recording = False
             raise
+        finally:
+            if armed:
+                signal.alarm(0)
+                signal.signal(signal.SIGALRM, prev)
 
     test = given(**strategies)(wrapped)
     test = hyp_settings(max_examples, ctx.tier)(test)
